@@ -799,8 +799,202 @@ def check_dump(ctx, desc):
 
 
 # ----------------------------------------------------------------------------------------
+# 5. the node count of a FRESH pyflwdir.from_array object on rasters with loops
+# ----------------------------------------------------------------------------------------
+# C03: cells that never reach a pit (members of, or tributaries to, a cycle) are excluded from the sequence AND the node
+# count. The count has several sources inside the object (a constructor argument, a rank computation, the size of the
+# sequence): the first thing asked of a fresh object is therefore the count itself - through every door that shows it
+# (nnodes, ncells, str(), _dict, dump + load) - on rasters of all three formats that contain loops with tributaries, and
+# it is compared with the harness' own count of the cells of its own graph that reach a pit; then again after ordering.
+# There is no Lean op for this composition: judged on the property clause with the brute-force oracle below (`spec`).
+FIRST_QUERIES = ["nnodes", "ncells", "str", "_dict", "dump", "dump-load"]
+ORDERINGS = ["idxs_seq", "walk", "sort"]
+
+
+def reach_pit(g):
+    """brute force: the cells of g (n = no cell) that sit on a pit after n steps"""
+    n = len(g)
+    out = []
+    for i in range(n):
+        if g[i] == n:
+            continue
+        j = i
+        for _ in range(n):
+            j = g[j]
+        if g[j] == j:
+            out.append(i)
+    return out
+
+
+def gen_loopy_graph(rng, shape, neighbours):
+    """functional graph on the cells of a raster with (usually) loops and trees hanging on them; >= 1 pit.
+    neighbours: links only between 8-neighbours (expressible as D8 / LDD codes), else arbitrary (NEXTXY)"""
+    r, c = shape
+    n = r * c
+    if not neighbours and rng.random() < 0.5:
+        g = gen_funcgraph(rng, n, p_nodata=rng.choice([0.0, 0.1, 0.3]))
+    else:
+        g = gen_dem_net(rng, shape, p_nodata=rng.choice([0.0, 0.15, 0.3]))
+        frac = rng.choice([0.0, 0.1, 0.2, 0.4, 0.7, 1.0])
+        for i in range(n):
+            if g[i] == n or rng.random() >= frac:
+                continue
+            ri, ci = divmod(i, c)
+            nb = [(ri + a) * c + ci + b for a in (-1, 0, 1) for b in (-1, 0, 1)
+                  if (a, b) != (0, 0) and 0 <= ri + a < r and 0 <= ci + b < c and g[(ri + a) * c + ci + b] != n]
+            if nb:
+                g[i] = rng.choice(nb)
+    vs = [i for i in range(n) if g[i] != n]
+    if not any(g[i] == i for i in vs):
+        p = rng.choice(vs)
+        g[p] = p
+    return g
+
+
+def encode_graph(rng, g, shape, fmt):
+    """raster data of format fmt that reads as g: every way the format can write a pit is used"""
+    r, c = shape
+    n = r * c
+    if fmt == "nextxy":
+        xs, ys = [-9999] * n, [-9999] * n
+        for i, d in enumerate(g):
+            if d == n:
+                continue
+            if d != i:
+                xs[i], ys[i] = d % c + 1, d // c + 1
+                continue
+            u = rng.random()
+            if u < 0.6:
+                xs[i] = ys[i] = rng.choice([-9, -10])
+            elif u < 0.8:
+                xs[i], ys[i] = i % c + 1, i // c + 1
+            else:
+                xs[i], ys[i] = rng.choice([(0, i // c + 1), (c + 1, i // c + 1), (i % c + 1, 0), (i % c + 1, r + 1)])
+        return {"xs": xs, "ys": ys}
+    dirs = C01.DIRS[fmt]
+    inv = {v: k for k, v in dirs.items()}
+    codes = []
+    for i, d in enumerate(g):
+        ri, ci = divmod(i, c)
+        if d == n:
+            codes.append(C01.NODATA[fmt])
+        elif d != i:
+            codes.append(inv[(d // c - ri, d % c - ci)])
+        else:
+            off = [k for k, (a, b) in dirs.items() if not (0 <= ri + a < r and 0 <= ci + b < c) or g[(ri + a) * c + ci + b] == n]
+            codes.append(rng.choice(off) if off and rng.random() < 0.3 else rng.choice(C01.PITS[fmt]))
+    return {"codes": codes}
+
+
+def gen_first_count(rng, ctx):
+    shape = gen_shape(rng, max_cells=42, max_side=7)
+    n = shape[0] * shape[1]
+    fmt = rng.choice(["d8", "ldd", "nextxy"])
+    g = gen_loopy_graph(rng, shape, neighbours=fmt != "nextxy")
+    desc = {"op": "c03x_first_count", "fmt": fmt, "shape": list(shape), **encode_graph(rng, g, shape, fmt)}
+    if fmt == "nextxy":
+        desc["form"] = rng.choice(["array", "tuple"])
+    if rng.random() < 0.25:   # user mask: the cells outside are no cells, a link into them ends in a pit
+        m = [int(rng.random() < 0.85) for _ in range(n)]
+        if any(m[i] and g[i] == i for i in range(n)):
+            desc.update(mask=m, mshape=list(shape), mask_dtype=rng.choice(["bool", "uint8"]))
+            g = [n if not m[i] else d if d == n or m[d] else i for i, d in enumerate(g)]
+    desc["ft"] = fmt if fmt == "ldd" or rng.random() < 0.7 else "infer"   # an LDD raster may read as D8 too
+    desc["check"] = rng.random() < 0.7
+    desc["g"] = g
+    desc["first"] = rng.choice(FIRST_QUERIES)
+    desc["order"] = rng.choice(ORDERINGS)
+    return desc
+
+
+def show_count(flw, how, klass):
+    """the node count of the object as shown through one of its doors"""
+    if how == "nnodes":
+        return int(flw.nnodes)
+    if how == "ncells":
+        return int(flw.ncells)
+    if how == "_dict":
+        return int(flw._dict["nnodes"])
+    if how == "str":
+        import re
+        m = re.search(r"'nnodes':\s*(-?\d+)", str(flw))
+        return int(m.group(1)) if m else None
+    fd, fn = tempfile.mkstemp(prefix="pfverif_c03x_", suffix=".pkl")
+    os.close(fd)
+    try:
+        flw.dump(fn)
+        if how == "dump":
+            import pickle
+            with open(fn, "rb") as h:
+                return int(pickle.load(h)["nnodes"])
+        return int(klass.load(fn).nnodes)
+    finally:
+        if os.path.exists(fn):
+            os.remove(fn)
+
+
+def check_first_count(ctx, desc):
+    from pyflwdir import pyflwdir as pf
+    shape = tuple(desc["shape"])
+    n = shape[0] * shape[1]
+    g = [int(d) for d in desc["g"]]
+    data = C01.build_data(desc)
+    mask = C01.build_mask(desc)
+    kw = {}
+    if desc["ft"] != "infer":
+        kw.update(ftype=desc["ft"], check_ftype=bool(desc.get("check", True)))
+    if mask is not None:
+        kw["mask"] = mask
+    reach = reach_pit(g)
+    want = len(reach)
+    loops = sum(1 for d in g if d != n) - want
+    wdesc = W(desc)
+    obs = {"want": want, "loop_cells": loops}
+    fs = []
+    try:
+        flw = pf.from_array(data, **kw)
+        obs["ds"] = canon_idx(flw.idxs_ds, n)
+        if obs["ds"] != g:
+            fs.append({"kind": "spec", "what": f"pyflwdir.from_array ({desc['fmt']}) does not read the raster as the graph it was written from"})
+        # FIRST query on the fresh object
+        obs["first"] = show_count(flw, desc["first"], pf.FlwdirRaster)
+        obs["first.all"] = {h: show_count(flw, h, pf.FlwdirRaster) for h in FIRST_QUERIES}
+        if desc["order"] == "idxs_seq":
+            seq = flw.idxs_seq
+        else:
+            flw.order_cells(desc["order"])
+            seq = flw._seq
+        obs["seq.size"] = int(np.size(seq))
+        obs["seq.set_ok"] = sorted(canon_idx(seq, n)) == reach
+        obs["rank>=0"] = int(np.sum(flw.rank >= 0))
+        obs["after.all"] = {h: show_count(flw, h, pf.FlwdirRaster) for h in FIRST_QUERIES}
+    except Exception as e:  # noqa: BLE001 - a legal raster with a pit: nothing is documented to raise
+        ctx.evaluations += 1
+        ctx.fail(wdesc, "spec", f"from_array / node count on a raster with {loops} loop cells raised {exc_class(e)}: {e!r}"[:200], observed=obs)
+        return
+    ctx.count("first-count:" + desc["fmt"] + (":loops" if loops else ":valid"))
+    ctx.count("first-count-query:" + desc["first"])
+    txt = f"{want} of the {want + loops} cells reach a pit ({loops} on / draining to a loop)"
+    if obs["first"] != want:
+        fs.append({"kind": "spec", "what": f"first query on a fresh from_array object: {desc['first']} shows {obs['first']} nodes, but {txt}: "
+                   "loop cells must be excluded from the node count"})
+    bad = sorted(h for h, v in obs["first.all"].items() if v != want)
+    if bad and obs["first"] == want:
+        fs.append({"kind": "spec", "what": f"before ordering: {', '.join(bad)} show {[obs['first.all'][h] for h in bad]} nodes, but {txt}"})
+    if obs["seq.size"] != want or not obs["seq.set_ok"] or obs["rank>=0"] != want:
+        fs.append({"kind": "spec", "what": f"after {desc['order']}: the sequence has {obs['seq.size']} cells, rank >= 0 for {obs['rank>=0']}, but {txt}"})
+    bad = sorted(h for h, v in obs["after.all"].items() if v != want)
+    if bad:
+        fs.append({"kind": "spec", "what": f"after {desc['order']}: {', '.join(bad)} show {[obs['after.all'][h] for h in bad]} nodes, but {txt}"})
+    for f in fs:
+        f["observed"] = obs
+    ctx.add(wdesc, [], lambda ans: fs, nontrivial=loops >= 1 and want >= 2,
+            key={k: desc.get(k) for k in ("fmt", "shape", "g", "mask", "ft", "first", "order")})
+
+
+# ----------------------------------------------------------------------------------------
 CHECKS = {"c03x_locidx": check_locidx, "c03x_ctor": check_ctor, "c03x_from_array": check_from_array,
-          "c03x_dump": check_dump}
+          "c03x_dump": check_dump, "c03x_first_count": check_first_count}
 
 
 def corpus(ctx):
@@ -848,7 +1042,7 @@ def run(ctx):
         d = (d or {}).get("x")
         if d and d.get("op") in CHECKS:
             d = dict(d)
-            if d["op"] in ("c03x_locidx", "c03x_from_array"):
+            if d["op"] in ("c03x_locidx", "c03x_from_array", "c03x_first_count"):
                 d.pop("ds", None)
             CHECKS[d["op"]](ctx, d)
         elif d and d.get("op") == "c03x_dtype":
@@ -870,6 +1064,11 @@ def run(ctx):
     ctx.flush()
     for _ in range(160 * k):
         check_dump(ctx, gen_dump(rng))
+        if len(ctx.cases) > 400:
+            ctx.flush()
+    ctx.flush()
+    for _ in range(200 * k):
+        check_first_count(ctx, gen_first_count(rng, ctx))
         if len(ctx.cases) > 400:
             ctx.flush()
     ctx.flush()
